@@ -854,6 +854,10 @@ func (in *c09Inst) applyOp(op c09Op) error {
 		return client.SendNodePoint(in.nc, id, data.Point{Type: data.PointTypePass, Text: op.Pass}, true)
 	case "setemail":
 		return client.SendNodePoint(in.nc, id, data.Point{Type: data.PointTypeEmail, Text: op.Email}, true)
+	case "altpass": // a further point of the same type under another key (a second address, an old password): not a credential
+		return client.SendNodePoint(in.nc, id, data.Point{Type: data.PointTypePass, Key: "1", Text: op.Pass}, true)
+	case "altemail":
+		return client.SendNodePoint(in.nc, id, data.Point{Type: data.PointTypeEmail, Key: "1", Text: op.Email}, true)
 	case "dup":
 		return client.DuplicateNode(in.nc, id, op.To, "")
 	}
@@ -1157,6 +1161,11 @@ func c09GenScenario(r *rand.Rand, idx int) *c09Scenario {
 					e := c09Emails[r.Intn(len(c09Emails))]
 					add(c09Op{Op: "setemail", ID: subj, Email: e})
 					creds[subj] = [2]string{e, creds[subj][1]}
+				}
+				if r.Intn(2) == 0 {
+					// ... and points of the same types under another key, written later: they are not the credentials
+					add(c09Op{Op: "altemail", ID: subj, Email: c09Emails[r.Intn(len(c09Emails))]})
+					add(c09Op{Op: "altpass", ID: subj, Pass: c09Passes[r.Intn(len(c09Passes))]})
 				}
 			}
 		case 7: // duplicate a user (the copy has the same credentials)
